@@ -196,9 +196,14 @@ def directory(seed, conf=False):
         sc["endpoint_owner"] = "root"
     s = sc["script"]
     released = set()      # names removed with nostop: their workers live on; the name is not re-added, so that
+    present = [w["name"] for w in ws]     # (the generator's guess of what exists: start / stop mostly go there)
     for _ in range(rng.randint(4, 16)):      # two observable watchers never share a (case-insensitive) name
         r = rng.random()
         n = rng.choice(pool)
+        if 0.5 <= r < 0.7 and present and rng.random() < 0.6:
+            n = rng.choice(present)
+            if rng.random() < 0.3:
+                n = n.swapcase()
         if r < 0.3 and n.lower() in released:
             r = 0.95
         if r < 0.3:
@@ -212,11 +217,14 @@ def directory(seed, conf=False):
                 if u is not None:
                     props["options"]["uid"] = u
             s.append({"op": "req", "cmd": "add", "props": props})
+            if n and n.lower() not in [x.lower() for x in present]:
+                present.append(n)
         elif r < 0.5:
             ns = rng.random() < 0.3
             if ns:
                 released.add(n.lower())
             s.append({"op": "req", "cmd": "rm", "props": {"name": n, "nostop": ns, "waiting": rng.random() < 0.5}})
+            present = [x for x in present if x.lower() != n.lower()]
         elif r < 0.7:
             cmd = rng.choice(["start", "stop", "restart", "incr", "status", "numprocesses", "list"])
             props = {"name": n}
